@@ -68,6 +68,11 @@ WF = [
             "state.bMarks[i] + state.tShift[i] <= state.eMarks[i] and state.eMarks[i] <= len(state.src))"),
     ("WF3", "forall(i, 0, len(state.bMarks) - 1, implies(state.eMarks[i] < len(state.src), "
             "state.src[state.eMarks[i]] == '\\n'))"),
+    # only the last real line may end at the end of the source
+    ("WF4", "forall(i, 0, len(state.bMarks) - 2, state.eMarks[i] < len(state.src))"),
+    # the logical start of a non-empty line is a non-blank character
+    ("WF5", "forall(i, 0, len(state.bMarks) - 1, implies(state.bMarks[i] + state.tShift[i] < state.eMarks[i], "
+            "not (state.src[state.bMarks[i] + state.tShift[i]] == ' ' or state.src[state.bMarks[i] + state.tShift[i]] == '\\t')))"),
 ]
 
 
